@@ -1,4 +1,5 @@
 use crate::error::Converter;
+use crate::xml::E57Tag;
 use crate::xml;
 use crate::{
     CartesianBounds, ColorLimits, DateTime, IndexBounds, IntensityLimits, Record, RecordDataType,
@@ -6,7 +7,6 @@ use crate::{
 };
 use roxmltree::{Document, Node};
 
-const E57_NAMESPACE_URL: &str = "http://www.astm.org/COMMIT/E57/2010-e57-v1.0";
 
 /// Descriptor with metadata for a single point cloud.
 ///
@@ -70,9 +70,9 @@ pub struct PointCloud {
 impl PointCloud {
     pub(crate) fn vec_from_document(document: &Document) -> Result<Vec<Self>> {
         let mut pointclouds = Vec::new();
-        if let Some(data3d_node) = document.descendants().find(|n| n.has_tag_name("data3D")) {
+        if let Some(data3d_node) = document.descendants().find(|n| n.is_e57_tag("data3D")) {
             for n in data3d_node.children() {
-                if n.has_tag_name("vectorChild") && n.attribute("type") == Some("Structure") {
+                if n.is_e57_tag("vectorChild") && n.attribute("type") == Some("Structure") {
                     let pointcloud = Self::from_node(&n)?;
                     pointclouds.push(pointcloud);
                 }
@@ -97,20 +97,20 @@ impl PointCloud {
         let acquisition_start = xml::opt_date_time(node, "acquisitionStart")?;
         let acquisition_end = xml::opt_date_time(node, "acquisitionEnd")?;
         let transform = xml::opt_transform(node, "pose")?;
-        let cartesian_bounds = node.children().find(|n| n.has_tag_name("cartesianBounds"));
-        let spherical_bounds = node.children().find(|n| n.has_tag_name("sphericalBounds"));
-        let index_bounds = node.children().find(|n| n.has_tag_name("indexBounds"));
-        let intensity_limits = node.children().find(|n| n.has_tag_name("intensityLimits"));
-        let color_limits = node.children().find(|n| n.has_tag_name("colorLimits"));
+        let cartesian_bounds = node.children().find(|n| n.is_e57_tag("cartesianBounds"));
+        let spherical_bounds = node.children().find(|n| n.is_e57_tag("sphericalBounds"));
+        let index_bounds = node.children().find(|n| n.is_e57_tag("indexBounds"));
+        let intensity_limits = node.children().find(|n| n.is_e57_tag("intensityLimits"));
+        let color_limits = node.children().find(|n| n.is_e57_tag("colorLimits"));
 
         // Read optional vector of original GUIDs
         let original_guids = if let Some(original_guids_node) =
-            node.children().find(|n| n.has_tag_name("originalGuids"))
+            node.children().find(|n| n.is_e57_tag("originalGuids"))
         {
             let mut guids = Vec::new();
             for n in original_guids_node.children() {
                 if !n.is_element()
-                    || !n.has_tag_name("vectorChild")
+                    || !n.is_e57_tag("vectorChild")
                     || n.attribute("type") != Some("String")
                 {
                     continue;
@@ -124,7 +124,7 @@ impl PointCloud {
 
         let points_tag = node
             .children()
-            .find(|n| n.has_tag_name("points") && n.attribute("type") == Some("CompressedVector"))
+            .find(|n| n.is_e57_tag("points") && n.attribute("type") == Some("CompressedVector"))
             .invalid_err("Cannot find 'points' tag inside 'data3D' child")?;
         let file_offset = points_tag
             .attribute("fileOffset")
@@ -138,7 +138,7 @@ impl PointCloud {
             .invalid_err("Cannot parse 'recordCount' attribute value as u64")?;
         let prototype_tag = points_tag
             .children()
-            .find(|n| n.has_tag_name("prototype") && n.attribute("type") == Some("Structure"))
+            .find(|n| n.is_e57_tag("prototype") && n.attribute("type") == Some("Structure"))
             .invalid_err("Cannot find 'prototype' child in 'points' tag")?;
 
         // Parse point prototype records
@@ -150,7 +150,7 @@ impl PointCloud {
             let ns_url = n.tag_name().namespace();
             let ns = n.lookup_prefix(ns_url.unwrap_or_default());
             let tag = n.tag_name().name();
-            let name = if ns_url.is_none() || ns_url == Some(E57_NAMESPACE_URL) {
+            let name = if ns_url.is_none() || ns_url == Some(xml::E57_NAMESPACE_URL) {
                 RecordName::from_namespace_and_tag_name(ns, tag)?
             } else {
                 // Attributes from extension namespaces are never standard attributes, even if they use the same name
